@@ -38,7 +38,7 @@ def parse(
     `path` is the path of the file being parsed, as it will appear in error and
     warning messages. It defaults to "<string>".
     """
-    text = evaluate_ifdefs(text)
+    text = evaluate_ifdefs(text, preserve_lines=True)
     lexer = Lexer(text, path=path)
     parser = Parser(lexer, settings)
     program = parser.parse()
@@ -258,7 +258,7 @@ class Parser:
                 return []
             else:
                 old_lexer = self.lexer
-                included_text = evaluate_ifdefs(included_text)
+                included_text = evaluate_ifdefs(included_text, preserve_lines=True)
                 self.lexer = Lexer(included_text, path=include_path)
                 ops = self.parse()
                 self.lexer = old_lexer
@@ -367,7 +367,7 @@ _ifdef_pattern = re.compile(
 )
 
 
-def evaluate_ifdefs(text):
+def evaluate_ifdefs(text, *, preserve_lines=False):
     """
     For compatibility with the HERA-C interpreter written in C++, hera-py supports
     #ifdef <x> ... #else ... #endif and #ifndef statements. The only token defined by
@@ -381,7 +381,15 @@ def evaluate_ifdefs(text):
 
     everything in the else clause will be stripped and may contain code that is not
     valid HERA, e.g. C++.
+
+    If `preserve_lines` is true, the line breaks of the stripped text and of the
+    directives themselves are kept, so that everything that remains is on the same line
+    as in the original text and diagnostics point at the right place.
     """
+
+    def stripped(s):
+        return "\n" * s.count("\n") if preserve_lines else ""
+
     ret = []
     starting_at = 0
     # A stack of booleans indicating whether we should keep text in the current block.
@@ -391,9 +399,12 @@ def evaluate_ifdefs(text):
     for mo in _ifdef_pattern.finditer(text):
         if keeping[-1]:
             ret.append(text[starting_at : mo.start()])
+        else:
+            ret.append(stripped(text[starting_at : mo.start()]))
 
         kind = mo.lastgroup
         value = mo.group()
+        ret.append(stripped(value))
         if kind == "IFDEF":
             word = value.split()[-1]
             # A block nested inside a discarded block is discarded whatever its condition.
